@@ -346,7 +346,10 @@ def run_case(c) -> tuple[bool, list[str]]:
             r = _differential(what + f" axis={ax_arg}", lambda: backends.stack(*arrs, axis=ax_arg), lambda: np.stack([_raw(x) for x in arrs], axis=ax))
         else:
             dims_exp = DIMS[: len(shape)][:ax] + ["new"] + DIMS[: len(shape)][ax:]
-            r = _differential(what + f" axis={ax}", lambda: backends.stack(*arrs, dim="new", axis=ax),
+            ax_arg = ax - (len(shape) + 1) if c.get("neg") else ax  # the same position counted from the end, as NumPy defines it
+            if ax_arg < 0:
+                classes.append("negative_axis")
+            r = _differential(what + f" axis={ax_arg}", lambda: backends.stack(*arrs, dim="new", axis=ax_arg),
                               lambda: np.stack([_raw(x) for x in arrs], axis=ax), False, dims_exp)
         classes.append(r)
         nt = ax > 0 and len(arrs) >= 2
